@@ -30,6 +30,13 @@ def handle1 (op : String) (args : List Sexp) : Option String := do
       match ← Val.ofSexp as, ← Val.ofSexp kw with
       | .list as, .dict kw => pure (reply (callLifted recorder top as kw))
       | _, _ => Option.none
+  | "callx", [Sexp.atom top, as, kw] =>
+      -- the same call; the harness runs it on namedtuples / dicts with keys of several types through a fixed
+      -- bijection of the containers (the model has plain tuples and string keys)
+      let top ← hexDecode top
+      match ← Val.ofSexp as, ← Val.ofSexp kw with
+      | .list as, .dict kw => pure (reply (callLifted recorder top as kw))
+      | _, _ => Option.none
   | "lib", [Sexp.atom _, v, kw] =>
       -- a library helper built with loop(list, dict, tuple): `_helper(v, **kw)`; the reply holds the leaf calls
       match ← Val.ofSexp v, ← Val.ofSexp kw with
